@@ -27,7 +27,7 @@ CLAIMS = {
   ref="DESIGN.md §2 C04"),
  "C05": dict(
   text="Held on the executions observed: at generated points of every projection's domain (all aspects, built-in and random ellipsoids) 4th-order finite differences of the forward operator satisfy the Cauchy-Riemann conditions (equal scale in all directions, orthogonal graticule images, positive orientation) to 1e-9 (1e-7 btmerc), laea has areal scale 1 to 5e-8, webmerc equals a*lon, a*asinh(tan(lat)); scale is k_0 on the central meridian / equator / standard parallels / centre, unity at lat_ts, the central-meridian northing is the scaled quadrature arc from lat_0, and the false origin maps from the centre; the library's Jacobian::factors agrees.",
-  note="A conformal map with given boundary values is unique, so no external reference implementation is needed; the stencil steps are chosen so truncation and round-off stay two orders below the tolerances (DESIGN §2 C05). utm/butm on the unit sphere are skipped (500 km false easting leaves no digits).",
+  note="A conformal map with given boundary values is unique, so no external reference implementation is needed; the stencil steps are chosen so truncation and round-off stay two orders below the tolerances (DESIGN §2 C05), and the conformality tolerance adds the rounding the stencil's inputs can carry (64 ulp of the plane coordinate over the arm length: 1e-11 at mid latitudes, some 1e-9 within a degree of a pole). utm/butm on the unit sphere are skipped (500 km false easting leaves no digits).",
   technique="runtime monitoring: differential invariant monitor (finite-difference conformality / equal-area identities) plus reference values on defining lines",
   ref="DESIGN.md §2 C05"),
  "C06": dict(
